@@ -307,7 +307,9 @@ def judge_read(ctx, fx, o, n, sig, path="eager", feats=None):
 def offsets_for(rng, fx):
     L, fr = fx.length, max(1, fx.frame // (2 if fx.real_baseband else 1))
     flen = L // max(1, len(fx.files))
-    cands = [0, 1, fr - 1, fr, fr + 1, flen - 1, flen, flen + 1, L - 1, L, L // 2, int(rng.integers(0, L + 1))]
+    cands = [0, 1, fr - 1, fr, fr + 1, flen - 1, flen, flen + 1, L - 1, L, L // 2, int(rng.integers(0, L + 1)),
+             # positions in the upper half of the narrow integer types (twice the value no longer fits the type)
+             100, 120, 200, 250, 17000, 30000, 40000, 60000]
     return [int(c) for c in cands if 0 <= c <= L]
 
 
@@ -325,7 +327,8 @@ def wl_reads(ctx, idx, rng):
     # offsets / counts as narrow NumPy integer scalars (anything operator.index accepts denotes the same position)
     o_arg, n_arg, itype = o, n, "int"
     if rng.random() < 0.4:
-        for t in rng.permutation([np.uint8, np.int8, np.int16, np.uint16, np.int32, np.int64]):
+        order = [np.int8, np.uint8, np.int16, np.uint16, np.int32, np.int64]       # narrowest first, half of the time
+        for t in (order if rng.random() < 0.5 else rng.permutation(order)):
             if o <= np.iinfo(t).max and n <= np.iinfo(t).max:
                 o_arg, n_arg, itype = t(o), t(n), np.dtype(t).name
                 break
